@@ -40,7 +40,16 @@ RULE = (
     "the same scheme with other coefficients, or None) on the same object, on a copy.copy of it, or by mutating the scheme "
     "instance's attributes; after each step linear_obj.regularization_matrix and / or the matrices of an Inversion built "
     "afterwards must equal those of freshly built objects carrying the new schemes (zero block for None), and the object that "
-    "was copied must still give its old matrix. "
+    "was copied must still give its old matrix. Prior reads: in three scheme cases out of four a generated sequence of 1-4 "
+    "public quantities of the SAME mapper / mesh / scheme is read before the matrix is computed (edge_pixel_list of mesh and "
+    "mapper, neighbors and neighbors.sizes, pixel_signals_from, mapping_matrix, unique_mappings, pix_sub_weights, "
+    "sub_slim_indexes_for_pix_index, voronoi_pixel_areas, split_cross, pix_sub_weights_split_cross, interpolated_array_from "
+    "of mesh and mapper, interpolation_grid_from, the scheme's weights, an earlier matrix, linear_obj.regularization_matrix); "
+    "every oracle above is applied to the matrix computed afterwards and it must equal the matrix of a freshly built, untouched "
+    "mapper (1e-12*max|H|; on a mismatch each read is replayed alone on a fresh mapper so the key names the culprit). After "
+    "reconstruction: a real aa.Inversion (1-2 objects, positive-only solver, force_edge_pixels_to_zeros=True) computes its "
+    "reconstruction first (solver exceptions tolerated and labelled), then inversion.regularization_matrix, every object's "
+    "regularization_matrix and the matrix of a second inversion built from the same objects must equal the fresh block diagonal. "
     "hypothesis.target(-min eigenvalue / max|H|). Non-trivial = mesh has >= 6 pixels of non-uniform degree (and, for adaptive "
     "schemes, non-constant weights or one of the explicit equal-coefficient / zero-signal-scale classes); for block assembly "
     ">= 2 objects whose blocks differ under reversal; for re-assignment a step that changes the scheme after a read; distinct = SHA-1 of "
@@ -59,12 +68,15 @@ ASSUMPTIONS = [
     "independent of the adapt image); it is generated as an explicit class and only the statement's own clauses are demanded of it",
     "re-assignment: the matrix must follow the scheme the object currently carries (the library's own idiom is copy.copy(mapper) + "
     "mapper.regularization = ...); compared with freshly built objects at 1e-12*max|H|",
+    "prior reads are read-only uses of documented public properties / methods; a read that raises is labelled and ignored (other "
+    "properties judge it), the matrix must still be right afterwards",
     "MaternKernel cannot be constructed without numba_scipy and is outside the statement's quantifier; "
     "AdaptiveBrightnessSplitZeroth is not in the quantifier's list but is covered by the statement's first sentence and is checked as a split-cross scheme",
 ]
 TECHNIQUE = ("Hypothesis-generated mappers and schemes checked against closed-form quadratic forms over an independent mesh adjacency, "
              "(triangulation validity by planarity + Euler edge count for degenerate vertex sets), eigenvalue / Cholesky certificates "
-             "with stated conditioning bands, differential block-diagonal assembly and generated re-assignment sequences against fresh objects")
+             "with stated conditioning bands, differential block-diagonal assembly, generated re-assignment and prior-read sequences and a "
+             "real inversion's reconstruction, all compared with freshly built objects")
 
 EPS = float(np.finfo(float).eps)
 RIDGE = 1.0e-8
@@ -158,6 +170,16 @@ def adapt_images(draw, n):
 MIN_JITTER = 1.0e-3
 
 
+# reads a caller may perform on the mesh / mapper / scheme before asking for the regularization matrix; the edge-pixel reads are
+# listed twice (an inversion performs them itself in `reconstruction` with the positive-only solver)
+READS = ["mesh.edge_pixel_list", "mapper.edge_pixel_list", "mesh.neighbors", "mesh.neighbors.sizes", "mapper.neighbors",
+         "mesh.edge_pixel_list", "mapper.edge_pixel_list", "mapper.pixel_signals", "mapper.mapping_matrix",
+         "mapper.unique_mappings", "mapper.pix_sub_weights", "mapper.sub_slim_indexes_for_pix_index",
+         "mesh.voronoi_pixel_areas", "mesh.split_cross", "mapper.pix_sub_weights_split_cross", "mesh.interpolated_array",
+         "mapper.interpolated_array", "mesh.interpolation_grid", "scheme.weights", "scheme.matrix",
+         "linear_obj.regularization_matrix"]
+
+
 def _hash01(k):
     x = np.sin(float(k) * 12.9898 + 78.233) * 43758.5453
     return float(2.0 * (x - np.floor(x)) - 1.0)
@@ -201,6 +223,8 @@ def scheme_cases(draw, family):
     base = draw(st.floats(-3.0, 3.0)); amp = draw(st.sampled_from([1e-3, 0.1, 1.0]))
     x1 = [base + amp * v for v in draw(st.lists(st.floats(-1.0, 1.0), min_size=p, max_size=p))]
     img["x"] = [x0, x1]
+    # public quantities of the same mesh / mapper read BEFORE the matrix is computed (none in one case out of four)
+    img["prior"] = draw(st.lists(st.sampled_from(READS), min_size=0 if draw(st.integers(0, 3)) == 3 else 1, max_size=4))
     return img
 
 
@@ -436,6 +460,96 @@ def generic_matrix_checks(h, n, t, key, ctx, rel_tol=1e-10, chol_ok=True):
     return True
 
 
+def do_read(obj, name):
+    """Evaluate one public quantity of the mapper / its mesh / its scheme (read-only use).  Returns 'ok', 'n/a' (the object
+    has no such quantity) or 'raised:<Type>' (not this property's business; the matrix must still be right afterwards)."""
+    mesh = obj.source_plane_mesh_grid
+    reg = obj.regularization
+    values = np.arange(int(obj.params), dtype=float) + 1.0
+    try:
+        if name == "mesh.edge_pixel_list":
+            list(mesh.edge_pixel_list)
+        elif name == "mapper.edge_pixel_list":
+            list(obj.edge_pixel_list)
+        elif name == "mesh.neighbors":
+            np.asarray(mesh.neighbors).sum()
+        elif name == "mesh.neighbors.sizes":
+            np.asarray(mesh.neighbors.sizes).sum()
+        elif name == "mapper.neighbors":
+            np.asarray(obj.neighbors).sum(); np.asarray(obj.neighbors.sizes).sum()
+        elif name == "mapper.pixel_signals":
+            obj.pixel_signals_from(signal_scale=0.7)
+        elif name == "mapper.mapping_matrix":
+            obj.mapping_matrix
+        elif name == "mapper.unique_mappings":
+            obj.unique_mappings
+        elif name == "mapper.pix_sub_weights":
+            obj.pix_sub_weights
+        elif name == "mapper.sub_slim_indexes_for_pix_index":
+            obj.sub_slim_indexes_for_pix_index
+        elif name == "mesh.voronoi_pixel_areas":
+            if not hasattr(mesh, "voronoi_pixel_areas"):
+                return "n/a"
+            mesh.voronoi_pixel_areas
+        elif name == "mesh.split_cross":
+            if not hasattr(mesh, "split_cross"):
+                return "n/a"
+            mesh.split_cross
+        elif name == "mapper.pix_sub_weights_split_cross":
+            if not hasattr(type(obj), "pix_sub_weights_split_cross"):
+                return "n/a"
+            obj.pix_sub_weights_split_cross
+        elif name == "mesh.interpolated_array":
+            mesh.interpolated_array_from(values=values, shape_native=(5, 4))
+        elif name == "mapper.interpolated_array":
+            obj.interpolated_array_from(values=values, shape_native=(4, 5))
+        elif name == "mesh.interpolation_grid":
+            mesh.interpolation_grid_from(shape_native=(4, 4))
+        elif name == "scheme.weights":
+            reg.regularization_weights_from(linear_obj=obj)
+        elif name == "scheme.matrix":
+            reg.regularization_matrix_from(linear_obj=obj)
+        elif name == "linear_obj.regularization_matrix":
+            obj.regularization_matrix
+        else:
+            raise ValueError(name)
+    except ValueError:
+        raise
+    except Exception as e:  # noqa: BLE001
+        return "raised:%s" % type(e).__name__
+    return "ok"
+
+
+def _same(a, b):
+    a, b = np.asarray(a, dtype=float), np.asarray(b, dtype=float)
+    return a.shape == b.shape and bool(np.all(np.abs(a - b) <= 1e-12 * (np.abs(b).max() if b.size else 0.0)))
+
+
+def prior_read_check(case, h, ctx, mesh):
+    """The matrix computed after the prior reads must equal the matrix of a freshly built object that nobody touched
+    (1e-12*max|H|).  On a mismatch the reads are replayed one at a time on fresh objects to name the culprit in the key."""
+    prior = case.get("prior", [])
+    if not prior:
+        return
+    _, fresh, _ = build_objs(case)
+    want = np.array(fresh[0].regularization.regularization_matrix_from(linear_obj=fresh[0]), dtype=float)
+    if _same(h, want):
+        ctx.comparisons += 1
+        return
+    culprits = []
+    for r in sorted(set(prior)):
+        _, objs1, _ = build_objs(case)
+        do_read(objs1[0], r)
+        h1 = np.array(objs1[0].regularization.regularization_matrix_from(linear_obj=objs1[0]), dtype=float)
+        if not _same(h1, want):
+            culprits.append(r)
+    for r in culprits or ["combination"]:
+        ctx.fail("prior-reads/%s/%s/matrix-changed" % (mesh, r),
+                 "regularization matrix computed after reading %s on the same mapper differs from the matrix of a fresh mapper: "
+                 "max|diff|=%.6g (max|H|=%.6g)" % (prior, float(np.abs(np.asarray(h, dtype=float) - want).max()) if np.shape(h) == want.shape else float("nan"),
+                                                   float(np.abs(want).max())))
+
+
 def body_scheme(case, ctx):
     spec = case["objs"][0]
     t = spec["reg"]["type"]
@@ -448,8 +562,14 @@ def body_scheme(case, ctx):
     reg = obj.regularization
     n = _params(spec)
     ctx.check(int(obj.params) == n, "harness/params", "mapper has %s parameters, expected %d" % (obj.params, n))
+    for r in case.get("prior", []):
+        status = do_read(obj, r)
+        ctx.label("prior-read:%s" % r if status == "ok" else "prior-read-%s:%s" % (status, r))
+    ctx.label("prior-reads:%d" % len(case.get("prior", [])))
     h = ctx.impl(key + "/matrix", lambda: reg.regularization_matrix_from(linear_obj=obj))
     h = np.array(h, dtype=float) if isinstance(h, np.ndarray) else h
+    if isinstance(h, np.ndarray):
+        prior_read_check(case, h, ctx, mesh)
     ctx.label("sub:per-pixel" if isinstance(spec["sub"], list) and len(set(spec["sub"])) > 1 else "sub:uniform")
 
     rel_tol, chol_ok = 1e-10, True
@@ -681,21 +801,80 @@ def body_reuse(case, ctx):
     ctx.nt(nontrivial)
 
 
+# ---------------------------------------------------------------------------------------------
+# matrices read after a real inversion has computed its reconstruction (positive-only, edge pixels forced to zero)
+# ---------------------------------------------------------------------------------------------
+def body_after_reconstruction(case, ctx):
+    import autoarray as aa
+    specs = case["objs"]
+    kinds = "+".join(sorted({s["type"] for s in specs}))
+    ctx.label("objs:%d" % len(specs), "kinds:%s" % kinds)
+    for s in specs:
+        ctx.label("obj:%s" % s["type"], "reg:none" if s.get("reg") is None else "reg:%s" % s["reg"]["type"])
+    regs = [s.get("reg") for s in specs]
+    blocks = _fresh_blocks(case, regs)
+    want = _block_diag(blocks)
+    atol = 1e-12 * float(np.abs(want).max() if want.size else 0.0)
+    mask, objs, _ = build_objs(case)
+    dataset = scene.build_imaging(case, mask)
+    settings = aa.SettingsInversion(use_w_tilde=False, use_positive_only_solver=True, force_edge_pixels_to_zeros=True,
+                                    no_regularization_add_to_curvature_diag_value=1e-3)
+    inv = ctx.impl("after-reconstruction/construct", aa.Inversion, dataset=dataset, linear_obj_list=objs, settings=settings)
+    first = case.get("read_matrix_first", False)
+    if first:   # the inversion caches its matrix before the reconstruction touches the meshes
+        np.array(inv.regularization_matrix)
+    ctx.label("matrix-read-before-reconstruction" if first else "matrix-read-after-reconstruction")
+    try:
+        inv.reconstruction
+        ctx.label("reconstruction:ok")
+    except Exception as e:  # noqa: BLE001  solver failures are C05's business; the matrices must be right regardless
+        ctx.label("reconstruction:raised-%s" % type(e).__name__)
+    ctx.nt(any(s["type"] != "func" and s.get("reg") is not None for s in specs))
+    got = np.array(ctx.impl("after-reconstruction/regularization_matrix", lambda: inv.regularization_matrix), dtype=float)
+    ctx.close(got, want, "after-reconstruction/%s/inversion-matrix" % kinds, atol=atol,
+              what="inversion.regularization_matrix read after inversion.reconstruction (positive-only, edge pixels forced to zero) vs fresh objects")
+    for k, (o, b) in enumerate(zip(objs, blocks)):
+        g = np.array(ctx.impl("after-reconstruction/linear_obj", lambda: o.regularization_matrix), dtype=float)
+        ctx.close(g, b, "after-reconstruction/%s/linear_obj-matrix" % specs[k]["type"], atol=atol,
+                  what="regularization_matrix of object %d (%s) after it went through an inversion's reconstruction" % (k, specs[k]["type"]))
+    inv2 = ctx.impl("after-reconstruction/construct-second", aa.Inversion, dataset=dataset, linear_obj_list=objs, settings=_settings(aa))
+    got2 = np.array(ctx.impl("after-reconstruction/second-inversion", lambda: inv2.regularization_matrix), dtype=float)
+    ctx.close(got2, want, "after-reconstruction/%s/second-inversion-matrix" % kinds, atol=atol,
+              what="regularization_matrix of a second inversion built from the same linear objects afterwards vs fresh objects")
+
+
+@st.composite
+def after_reconstruction_cases(draw):
+    case = draw(block_cases())
+    case["objs"] = case["objs"][:2]
+    # at least one regularized mapper
+    if not any(o["type"] != "func" and o.get("reg") is not None for o in case["objs"]):
+        n = sum(1 for r in case["mask"] for v in r if not v)
+        obj = _general_position(draw, draw(scene.obj_specs(n, kinds=("rect", "delaunay"), reg_types=("constant",),
+                                                            reg_none=False, max_sub=2, max_mesh=4)))
+        obj["reg"] = draw(reg_spec(_types_for(obj), obj["type"]))
+        case["objs"][0] = obj
+    case["read_matrix_first"] = draw(st.integers(0, 3)) == 3
+    return case
+
+
 def _ex(q, t):
     return {"quick": q, "thorough": t}
 
 
 SUBCHECKS = [
     SubCheck("neighbour-schemes", body_scheme, strategy=scheme_cases("neighbour"),
-             examples=_ex(960, 24000), shards=_ex(4, 16)),
+             examples=_ex(720, 14000), shards=_ex(4, 16)),
     SubCheck("zeroth-schemes", body_scheme, strategy=scheme_cases("zeroth"),
-             examples=_ex(320, 6000), shards=_ex(2, 8)),
+             examples=_ex(240, 3600), shards=_ex(1, 8)),
     SubCheck("split-schemes", body_scheme, strategy=scheme_cases("split"),
-             examples=_ex(600, 16000), shards=_ex(4, 16)),
+             examples=_ex(480, 9600), shards=_ex(3, 16)),
     SubCheck("kernel-schemes", body_scheme, strategy=scheme_cases("kernel"),
-             examples=_ex(600, 16000), shards=_ex(3, 16)),
+             examples=_ex(480, 9600), shards=_ex(3, 16)),
     SubCheck("block-assembly", body_blocks, strategy=block_cases(),
-             examples=_ex(480, 12000), shards=_ex(3, 16)),
+             examples=_ex(360, 7200), shards=_ex(2, 16)),
     SubCheck("scheme-reassignment", body_reuse, strategy=reuse_cases(),
-             examples=_ex(480, 12000), shards=_ex(3, 16)),
+             examples=_ex(360, 7200), shards=_ex(2, 16)),
+    SubCheck("after-reconstruction", body_after_reconstruction, strategy=after_reconstruction_cases(),
+             examples=_ex(200, 4800), shards=_ex(1, 16)),
 ]
